@@ -197,6 +197,8 @@ def gen_loop(tier, seed):
 
 def suites(tier, seed):
     ss = [
+        Suite("ids-end-to-end", "obey", lambda: __import__("props.c15", fromlist=["x"]).gen_obey(tier, seed + 10), monitor=__import__("props.c15", fromlist=["x"]).obey_monitor, nontrivial=lambda c, il: True, shards=4, timeout=300,
+              rule="real connection + I/O thread over the mock transport: channel_max negotiated from both sides' wishes (incl. 0 = no limit, 1, 2, 3, 5), automatic opens until the table is full: every id 1..=channel_max is handed out, none above it, ExhaustedChannelIds exactly when all are open (stray CloseOks for unopened ids in between); exact diff against the Lean model (Tune + Slots)"),
         Suite("ids-in-the-loop", "machine", lambda: gen_loop(tier, seed), monitor=loop_monitor, nontrivial=lambda c, il: True, canon=__import__("machgen").canon_nondet, candidate_ok=__import__("machgen").candidate_ok, shards=4,
               rule="the allocator inside the REAL I/O loop (machine engine): channel_max 65535 with ids 65534 / 65535 opened, used, closed and reopened; every sequence of 5 (thorough: 7) opens / closes with channel_max 2 and calls in flight; channels opened and closed while the loop is throttled, then resumed: no panic, no error, no shared id, every reply to its channel"),
         Suite("slots-random", "slots", lambda: gen_random(tier, seed), monitor=monitor, nontrivial=nontrivial,
